@@ -54,6 +54,12 @@ func MkdirAll(path string, uid, gid int, doChown bool, dirPerm fs.FileMode) erro
 		if err != nil {
 			return err
 		}
+	} else if i > 0 && !os.IsPathSeparator(path[0]) {
+		// A single relative path element is a bucket directory. Those are
+		// made by CreateBucket only: an upload that races with DeleteBucket
+		// has to fail rather than bring the bucket directory back without
+		// its owner and settings.
+		return s3err.GetAPIError(s3err.ErrNoSuchBucket)
 	}
 
 	// Parent now exists; invoke Mkdir and use its result.
